@@ -66,7 +66,9 @@ void janet_signalv(JanetSignal sig, Janet message) {
         if (janet_vm.coerce_error && sig != JANET_SIGNAL_OK) {
 #ifdef JANET_EV
             if (NULL != janet_vm.root_fiber && sig == JANET_SIGNAL_EVENT) {
+                /* The wait that was being set up is abandoned: forget its timeout and let go of the stream */
                 janet_vm.root_fiber->sched_id++;
+                janet_async_end(janet_vm.root_fiber);
             }
 #endif
             if (sig != JANET_SIGNAL_ERROR) {
